@@ -933,9 +933,55 @@ def compare_mcase(ctx, mc, obs, answers):
             ctx.disagree('C04 matrix filter pipeline', {'mcase': mc, 'direction': name, 'max_dev': dev})
 
 
+# the matrix-valued pipeline executed by the Lean model (driver op `filtmp`), small grids
+
+def gen_pmcase(rng):
+    n = [2, 2, 3][int(rng.integers(0, 3))]
+    while True:
+        (nx, qx), (ny, qy) = PAXES[int(rng.integers(0, len(PAXES)))], PAXES[int(rng.integers(0, len(PAXES)))]
+        mxx, myy = int(np.round(qx * nx)), int(np.round(qy * ny))
+        if n * n * mxx * myy <= 256 and n * n * nx * ny * (mxx * myy) ** 2 <= 12000:
+            break
+    return {'dims': [nx, ny], 'delta': [0.25, [0.25, 0.5][int(rng.integers(0, 2))]], 'q': qx if (qx == qy and rng.random() < 0.7) else [qx, qy], 'n': n,
+            'field': ['vector', 'vector', 'matrix'][int(rng.integers(0, 3))], 'tfkind': ['generator', 'field'][int(rng.integers(0, 2))],
+            'fseed': int(rng.integers(0, 2 ** 31)), 'exec': True}
+
+
+def directed_pmcases():
+    return [{'dims': d, 'delta': [0.25, 0.25], 'q': q, 'n': n, 'field': f, 'tfkind': 'field', 'fseed': 12, 'exec': True}
+            for d, q, n, f in (([3, 2], 1.0, 2, 'vector'), ([2, 2], 1.5, 2, 'matrix'), ([1, 3], [3.0, 1.0], 3, 'vector'), ([2, 1], [1.5, 3.0], 2, 'vector'))]
+
+
+def pmcase_requests(mc, obs):
+    D, n = obs['D'], mc['n']
+    lines = []
+    obs['expect'] = []
+    for back, e_in, e_out in ((0, obs['x'], obs['fx']), (1, obs['y'], obs['by'])):
+        cols = [(e_in, e_out)] if mc['field'] == 'vector' else [(e_in[:, l, :], e_out[:, l, :]) for l in range(n)]
+        for v_in, v_out in cols:
+            lines.append('C04 filtmp %d %d %s %s %s %s' % (n, back, _glist(D.real.reshape(-1)), _glist(D.imag.reshape(-1)),
+                                                        _glist(v_in.real.reshape(-1)), _glist(v_in.imag.reshape(-1))))
+            obs['expect'].append((back, v_out.reshape(-1)))
+    return lines
+
+
+def compare_pmcase(ctx, mc, obs, answers):
+    for resp, (back, real) in zip(answers, obs['expect']):
+        if not resp.startswith('ok'):
+            raise MachineryError('C04 filtmp: driver answered %r for %r' % (resp, mc))
+        got = np.array([sum((float(parse_rat(c)) * np.exp(2j * np.pi * float(parse_rat(t))) for c, t in (term.split(':') for term in pix.split(',') if term)), 0j)
+                        for pix in resp.split('out=', 1)[1].split(';')])
+        ctx.traces_validated += 1
+        ctx.count('pipeline-executed(filtmp):' + ('backward' if back else 'forward'))
+        if got.shape != real.shape or not np.abs(got - real).max() <= 1e-12 * max(1.0, float(np.abs(real).max())):
+            ctx.disagree('C04 executed matrix pipeline', {'mcase': mc, 'direction': 'backward' if back else 'forward',
+                                                          'impl': [str(c) for c in real], 'model': [str(c) for c in got]})
+
+
 def run_mcases(ctx):
     n = ctx.scale(160, 2500)
-    mcases = directed_mcases() + [gen_mcase(ctx.rng) for _ in range(n)]
+    npm = ctx.scale(40, 600)
+    mcases = directed_mcases() + [gen_mcase(ctx.rng) for _ in range(n)] + directed_pmcases() + [gen_pmcase(ctx.rng) for _ in range(npm)]
     lines, kept = [], []
     for mc in mcases:
         obs = {}
@@ -947,11 +993,16 @@ def run_mcases(ctx):
         if 'ff' not in obs:
             continue
         req = mcase_requests(mc, obs, ctx.rng)
-        kept.append((mc, obs, len(lines), len(req)))
-        lines += req
+        extra = pmcase_requests(mc, obs) if mc.get('exec') else []
+        if mc.get('exec'):
+            ctx.count('matrix-tf executed pipeline: n=%d %s' % (mc['n'], mc['field']))
+        kept.append((mc, obs, len(lines), len(req), len(extra)))
+        lines += req + extra
     answers = ctx.model(lines)
-    for mc, obs, a, k in kept:
+    for mc, obs, a, k, ke in kept:
         compare_mcase(ctx, mc, obs, answers[a:a + k])
+        if ke:
+            compare_pmcase(ctx, mc, obs, answers[a + k:a + k + ke])
 
 
 # ---------------------------------------------------------------------------------------------
